@@ -10,6 +10,21 @@ CLAIMED = {
    note="Trusted: Lean kernel (+ propext, Classical.choice, Quot.sound); the hand-written model of set_match is tied to the code by differential execution only (exhaustive for small sizes); predicates are modelled as a pure Boolean matrix.",
    technique="Lean 4 proof (induction on remaining patterns with a frame lemma for the undo) + exhaustive small-size correspondence with the real set_match",
    design="5/C10"),
+ "C18": dict(
+   text="Proof (Lean 4 kernel) over lists of path components of any length: the overlap stripped by absolute_source_path is the longest suffix/prefix overlap; for every layout cargo produces (manifest dir = wsroot/pkg, file = pkg/src) with no spurious longer overlap the resolved path is wsroot/pkg/src; the result is always the file path appended to a prefix of the manifest dir obtained by stripping a genuine overlap. The unguarded statement is refuted by a kernel-checked counterexample (known finding: a package directory named like the first component of the source path). Tied to the real function by exhaustive differential execution over all layouts of depth <= 2-3 over a 3-name alphabet, absolute compiler paths, and real files on disk whose snippet must be shown.",
+   note="Trusted: Lean kernel; the model of Unix Path::components / PathBuf::push (validated differentially on every run); cargo's conventions for CARGO_MANIFEST_DIR and file!() are modelled, not verified (mini-workspaces built by cargo are a thorough-tier growth item).",
+   technique="Lean 4 proof about longest-overlap stripping over component lists + exhaustive small-layout correspondence with the real function and real files",
+   design="5/C18"),
+ "C04": dict(
+   text="Proof (Lean 4 kernel), for every source text and every character position: the byte offset the runtime computes from the compiler's (line, character column) of a character is that character's byte position (C04_offset_roundtrip), so a node whose tokens are characters i..j is annotated with exactly the bytes of those characters, and the range is non-empty (C04_span_exact, C04_span_nonempty). The pinned code did not have this property (kernel-checked counterexample; repaired by a fix: commit). Tied to the real byte_offset_of and to the spans the real Display hands to the renderer by differential execution on random Unicode / tab / CRLF texts. The anchor-selection half (which tokens a node's location covers) is tied structurally through the in-process parser harness.",
+   note="Trusted: Lean kernel; rustc/proc-macro2's (line, column) convention is modelled by posOf (columns = Unicode scalar values since line start; BOM and bare CR outside the model); correspondence is sampled.",
+   technique="Lean 4 proof (round trip posOf / byteOffsetOf by induction on the text) + differential execution against the real function and Display",
+   design="5/C04"),
+ "C06": dict(
+   text="Proof (Lean 4 kernel), for every source text and every recorded (line, column) range including ranges outside the text: the spans the crate hands to the renderer are non-empty, start on a character boundary, end on a boundary or exactly one past the end, i.e. they satisfy the renderer's observed no-panic contract (C06_spans_meet_contract, C06_rendererOk); the fallback listing has the header and one located entry per mismatch. The pinned code violated the contract (kernel-checked counterexample; the process aborted; repaired by a fix: commit). Tied to the code by formatting real ErrorReports over files in every state (normal, non-ASCII, CRLF, empty, truncated, edited, missing, directory, not UTF-8) under catch_unwind, and the renderer contract itself is validated against the real annotate-snippets on every run.",
+   note="Trusted: Lean kernel; annotate-snippets is represented by its observed contract (validated differentially, not proved); file-system faults are modelled as 'read fails -> None'; that the expansion raises exactly one panic after all pushes is tied structurally (expansion tokens) and by compiled programs.",
+   technique="Lean 4 proof that every produced span meets the renderer's contract + differential execution of the real Display over faulted source files",
+   design="5/C06"),
 }
 
 def main():
